@@ -333,6 +333,38 @@ def run_case(case, ctx):
                                                                        f"lookup={None if e2 is None else obs(e2)!r:.200}"))
                     break
             ctx.count("delete_then_insert_probes")
+        # ------------------------------------------------------------ a second Datastore object on the same file
+        if backend == "sqlite" and not viols and specs and case.get("del_pick", 0) % 3 == 0:
+            # (an importer or a command-line tool next to the server) it deletes and re-creates the bucket; what the first
+            # Datastore then inserts is stored, listed and found by id like any other event
+            b.get(1)                                        # a read: nothing of the first handle is left pending
+            other = Store(backend, ctx.tmp, path=st.path)
+            try:
+                other.ds.delete_bucket("b")
+                ob = other.ds.create_bucket("b", type="t", client="c", hostname="h")
+                ob.insert(mk_event(dict(specs[0], data={"uid": 5000})))
+                ob.get(1)
+                late = [dict(s, data=dict(s["data"], uid=6000 + i)) for i, s in enumerate(specs[:3])]
+                r = b.insert(mk_event(late[0]))
+                if late[1:]:
+                    b.insert([mk_event(s) for s in late[1:]])
+                for h, hb in (("first", b), ("second", other.ds["b"])):
+                    rows = {__import__("json").loads(t[3]).get("uid"): t for t in dump_bucket(hb)}
+                    for s in late:
+                        t = rows.get(s["data"]["uid"])
+                        if t is None:
+                            viols.append(("event-inserted-after-another-datastore-recreated-the-bucket-is-not-listed",
+                                          f"backend={backend} through the {h} Datastore: uid={s['data']['uid']} listed uids={sorted(rows)}"))
+                            break
+                        _cmp("listing-after-recreate-by-another-datastore", _want(s), t, viols)
+                        e2 = hb.get_by_id(t[0])
+                        if e2 is None or obs(e2) != t:
+                            viols.append(("lookup-by-id-after-recreate-by-another-datastore", f"backend={backend} id={t[0]} lookup={None if e2 is None else obs(e2)!r:.200}"))
+                if r is not None and r.id is not None and not viols and b.get_by_id(r.id) is None:
+                    viols.append(("returned-id-finds-nothing", f"backend={backend} id={r.id}"))
+                ctx.count("second_datastore_on_the_same_file_probes")
+            finally:
+                other.close(remove=False)
     nontriv = any(s[4] == "sub-ms" or s[6] or s[5] != "flat" for s in sigs)
     n = max(1, len(specs))
     sig = sigs[0] if sigs else (backend, "empty")
